@@ -116,7 +116,10 @@ DOCUMENTED = {1, 2, 3, 4, 5, 6, 7, 8}
 
 
 def err_code(e):
-    return ERR.get(type(e).__name__, 99)
+    for cls in type(e).__mro__:
+        if cls.__name__ in ERR:
+            return ERR[cls.__name__]
+    return 99
 
 
 # ----------------------------------------------------------------------------------------------
